@@ -470,6 +470,12 @@ func (env *SpecEnv) binary(x *SExpr) Value {
 		return mathInt(mkTDiv(env.evalInt(x.Args[0]), env.evalInt(x.Args[1])))
 	case "%":
 		return mathInt(mkTRem(env.evalInt(x.Args[0]), env.evalInt(x.Args[1])))
+	case "++":
+		a, b := specTerm(env.eval(x.Args[0])), specTerm(env.eval(x.Args[1]))
+		if a.Sort != SStr || b.Sort != SStr {
+			env.fail(x, "++ needs strings")
+		}
+		return Scalar{env.e.concat(env.state(), a, b), tyString}
 	case "&", "|", "^", "<<", ">>", "&^":
 		a, b := env.evalInt(x.Args[0]), env.evalInt(x.Args[1])
 		return mathInt(env.e.bitop(env.st, x.Op, a, b, nil))
@@ -504,6 +510,9 @@ func (env *SpecEnv) valuesEqual(x *SExpr, a, b Value) *Term {
 		ta, tb := specTerm(a), specTerm(b)
 		if !sameSort(ta.Sort, tb.Sort) {
 			env.fail(x, fmt.Sprintf("comparison of %s and %s", ta.Sort, tb.Sort))
+		}
+		if ta.Sort == SStr {
+			return env.e.strEq(env.state(), ta, tb) // same expansion as Go's == on strings
 		}
 		return mkEq(ta, tb)
 	case StructVal:
@@ -657,6 +666,17 @@ func (env *SpecEnv) call(x *SExpr) Value {
 			env.fail(x, "end(slice)")
 		}
 		return mathInt(mkAdd(sv.Off, sv.Len))
+	case "inner":
+		// inner(s): the backing array of slice s as an array value (absolute indices)
+		sv, ok := toSlice(env.eval(x.Args[0]))
+		if !ok {
+			env.fail(x, "inner(slice)")
+		}
+		et := sv.Typ.Underlying().(*types.Slice).Elem()
+		if reprOf(et) != rInt {
+			env.fail(x, "inner() needs a slice of integers")
+		}
+		return SpecTerm{mkSelect(env.state().memMap(memFamily(et), SInt), sv.Arr)}
 	case "base":
 		sv, ok := toSlice(env.eval(x.Args[0]))
 		if !ok {
